@@ -112,7 +112,9 @@ def run(prog: Program, rep: Report, tier: str):
         c = comps[0]
         src = c[3][0][0]
         from_fields = T.contains(src, lambda s: s == fields_call)
-        filt = any(cd[0] == "cmp" and cd[1] == "notin" and cd[2] == c[2] and T.contains(cd[3], lambda s: s[0] == "call" and s[1][0] == "attr" and s[1][2] == "union") for cd in c[4])
+        # the per-class __slots__ are flattened into one collection of names: set().union(*…), itertools.chain, or a nested comprehension
+        flat = lambda s: (s[0] == "call" and s[1][0] == "attr" and s[1][2] == "union") or T.is_call_to(s, "itertools.chain.from_iterable", "itertools.chain") or (s[0] == "comp" and len(s[3]) >= 2)  # noqa: E731
+        filt = any(cd[0] == "cmp" and cd[1] == "notin" and cd[2] == c[2] and T.contains(cd[3], flat) for cd in c[4])
         inherited_ok = any(cd[0] == "cmp" and cd[1] == "notin" and T.contains(cd[3], lambda s: T.is_call_to(s, "builtins.getattr") and len(s[2]) >= 2 and s[2][1] == ("const", "__slots__")) for cd in c[4])
         all_ancestors = any(T.contains(cd, lambda s: (s[0] == "call" and s[1][0] == "attr" and s[1][1] == CLS and s[1][2] == "mro") or s == ("attr", CLS, "__mro__")) for cd in c[4])
         ok_slots = ok_slots and from_fields and filt and inherited_ok and all_ancestors
@@ -141,6 +143,7 @@ def run(prog: Program, rep: Report, tier: str):
         with_flag = None
         without_flag = False
         layout_aware = None
+        sign_tested = False
         for pth in rets:
             gs = pth.guards()
             requested = any(g == ("param", flag) and po for g, po in gs)
@@ -150,10 +153,14 @@ def run(prog: Program, rep: Report, tier: str):
             if has:
                 with_flag = True
                 # the bases' instance layout is consulted: the offset attribute, or a search for a base without __slots__
-                aware = any(T.contains(g, lambda s: (s[0] == "attr" and s[2] == layout) or (s[0] == "cmp" and s[1] in ("in", "notin") and s[2] == ("const", "__slots__"))) for g, _po in gs)
+                aware = any(T.contains(g, lambda s: (s[0] == "attr" and s[2] == layout) or (T.is_call_to(s, "operator.attrgetter", "builtins.getattr") and ("const", layout) in s[2]) or (s[0] == "cmp" and s[1] in ("in", "notin") and s[2] == ("const", "__slots__"))) for g, _po in gs)
                 layout_aware = aware if layout_aware is None else (layout_aware and aware)
+                # ... by its truth (zero: no such member), never by its sign: a heap class with a managed __dict__ reports -1
+                if any(T.contains(g, lambda s: s[0] == "cmp" and s[1] in ("<", "<=", ">", ">=") and any(T.contains(x, lambda y: y[0] == "attr" and y[2] == layout) for x in s[2:4])) for g, _po in gs):
+                    sign_tested = True
         rep.check(with_flag is True and without_flag is False, "R19.2", q, f.loc, f"'{key}' slot is added only when `{flag}` is requested", f"'{key}' slot is not tied to the `{flag}` flag (added with flag: {with_flag}, without: {without_flag})", detail=key)
         rep.check(bool(layout_aware), "R19.2", q, f.loc, f"'{key}' is not asked for again when a base already provides it ({layout} of the bases is consulted)", f"the '{key}' slot is requested without looking at the bases: a dataclass deriving from a base without __slots__ already has a {key}, and type() raises TypeError ('{key} slot disallowed: we already got one') -- with the default flags slotted() raises for every subclass of an unslotted dataclass", detail=f"{key}-inherited")
+        rep.check(not sign_tested, "R19.2", q, f.loc, f"{layout} of a base is tested for being non-zero", f"{layout} of a base is compared by order: the offset is negative for an ordinary heap class (managed dict: -1 on CPython >= 3.11; a negative offset counts from the end of a variable-sized object), so a base that does provide '{key}' is not recognised and type() raises TypeError ('{key} slot disallowed: we already got one')", detail=f"{key}-offset-sign")
     # field defaults removed from class dict
     popped = False
     for pth in rets:
@@ -174,6 +181,9 @@ def run(prog: Program, rep: Report, tier: str):
             removed = False
             for e in pth.events:
                 if e[0] == "eval" and e[1][0] == "call" and e[1][1][0] == "attr" and e[1][1][2] == "pop" and e[1][2][:1] == (("const", key),) and is_cls_dict(e[1][1][1]):
+                    removed = True
+                # `for f in (*field_names, "__dict__", …): cls_dict.pop(f, None)`: the key is an element of the display looped over
+                if e[0] == "eval" and e[1][0] == "call" and e[1][1][0] == "attr" and e[1][1][2] == "pop" and is_cls_dict(e[1][1][1]) and e[1][2] and e[1][2][0][0] == "elem" and e[1][2][0][1][0] in ("tuple", "list") and ("const", key) in e[1][2][0][1][1]:
                     removed = True
                 if e[0] == "delete" and e[1][0] == "sub" and e[1][2] == ("const", key) and is_cls_dict(e[1][1]):
                     removed = True
